@@ -27,7 +27,8 @@ def demo(wt, d, k):
         p = os.path.join(wt, tgt)
         orig = open(p).read()
         open(p, "w").write(orig + "\n" + txt)
-        rc, out = sh(f"cargo test --offline --lib demo_{k}", wt, 900)
+        filt = os.environ.get("DEMO_FILTER") or f"demo_{k}"
+        rc, out = sh(f"cargo test --offline --lib {filt}", wt, 900)
         open(p, "w").write(orig)
         ok = rc == 0 and re.search(r"test result: ok\. [1-9]\d* passed", out) is not None
         return ok, out[-1500:]
